@@ -34,7 +34,9 @@ THEOREMS = {
             ("XV.Tz.scanLine_struct", "XonshVerif.Proofs.TokStructure"),
             ("XV.Tz.string_tokens_are_source_slices", "XonshVerif.Properties.C08"), ("XV.Tz.srcText_is_slice_of_source", "XonshVerif.Properties.C08"), ("XV.Tz.tokenizeLines_strings", "XonshVerif.Proofs.StringTiling"),
             ("XV.Tz.pseudo_token_is_source_slice", "XonshVerif.Proofs.Tiling"), ("XV.Tz.handleEndProgs_adv", _PT), ("XV.Tz.nextPseudo_adv", _PT), ("XV.Tz.scanLine_no_loopFuel", _PT)],
-    "C09": [("XV.Ops.first_listed_is_longest", "XonshVerif.Properties.C09"), ("XV.Ops.prefix_of_prefixes", "XonshVerif.Properties.C09")],
+    "C09": [("XV.Tz.measureIndent_spec", "XonshVerif.Properties.C09Indent"), ("XV.Tz.tab_stop", "XonshVerif.Properties.C09Indent"),
+            ("XV.Tz.tokens_are_source_slices", "XonshVerif.Properties.C08"), ("XV.Tz.tokenize_structure", "XonshVerif.Properties.C08"),
+            ("XV.Ops.first_listed_is_longest", "XonshVerif.Properties.C09"), ("XV.Ops.prefix_of_prefixes", "XonshVerif.Properties.C09")],
     "C11": [("XV.Helpers.error_wellformed", _HELP)],
     "C10": [("XV.Tz.fstring_tokens_balanced", "XonshVerif.Properties.C10"), ("XV.Tz.fstring_prefix_depth_defined", "XonshVerif.Properties.C10"),
             ("XV.Tz.tokenizeLines_fbal", "XonshVerif.Proofs.FstringBalance"), ("XV.Tz.handleFstringProgs_fstep", "XonshVerif.Proofs.FstringBalance"),
@@ -293,7 +295,7 @@ GATED_SOURCES = [
     "def f[T](a): pass\ntry:\n    pass\nexcept* E:\n    pass\n", "type X = \n", "def f[T(a): pass\n", "type X = int\n)\n", "def f[T] x\n",
     "class A[T] | grep\n", "type = 3\n", "type(x)\n", "try:\n    pass\nexcept E:\n    pass\n", "x = [T]\n", "def f(a): pass\n",
 ]
-GATE_VERSIONS = [None, (3, 8), (3, 10), (3, 11), (3, 12), (3, 13), (3,), (4, 0), (3, 11, 9), (3, 12, 0)]
+GATE_VERSIONS = [None, (3, 8), (3, 10), (3, 11), (3, 12), (3, 13), (3,), (4, 0), (4,), (5, 3), (3, 11, 9), (3, 12, 0), (3, 12, 1, 0), (3, 11, 0, 0), (3, 12, 1, "final", 0)]
 
 
 def corr_gate(rep, tier):
